@@ -865,20 +865,20 @@ type zzC10WNode struct {
 }
 
 type zzC10Bad struct {
-	Kind       string        `json:"kind"`
-	Act        zzC10Act      `json:"act"`
-	Src        []zzC10L      `json:"src"`
-	SrcDisk    []zzC10L      `json:"srcdisk"`
-	SrcProb    []string      `json:"srcprob"`
-	Want       []zzC10Out    `json:"want"`
-	Why        string        `json:"why"`
-	Reply      zzC10Reply    `json:"reply"`
-	Post       *zzC10Obs     `json:"post"`
-	History    []zzC10Act    `json:"history"`
-	Reproduced bool          `json:"reproduced"`
-	Minimal    bool          `json:"minimal"`
-	Sig        string        `json:"sig"`
-	Univ       *zzC10Univ    `json:"univ"`
+	Kind       string         `json:"kind"`
+	Act        zzC10Act       `json:"act"`
+	Src        []zzC10L       `json:"src"`
+	SrcDisk    []zzC10L       `json:"srcdisk"`
+	SrcProb    []string       `json:"srcprob"`
+	Want       []zzC10Out     `json:"want"`
+	Why        string         `json:"why"`
+	Reply      zzC10Reply     `json:"reply"`
+	Post       *zzC10Obs      `json:"post"`
+	History    []zzC10Act     `json:"history"`
+	Reproduced bool           `json:"reproduced"`
+	Minimal    bool           `json:"minimal"`
+	Sig        string         `json:"sig"`
+	Univ       *zzC10Univ     `json:"univ"`
 	Extra      map[string]any `json:"extra,omitempty"`
 }
 
